@@ -109,6 +109,21 @@ pub fn run_replay(args: &Args, mut out: Out) {
                         next_id += 1;
                     }
                 }
+                "Burst" => {
+                    let h = idx(step["h"].as_str().unwrap());
+                    for _ in 0..step["n"].as_u64().unwrap() {
+                        let data = format!("one#{next_id}");
+                        let was = handles[h].as_ref().map_or(false, EventSender::is_connected);
+                        if let Some(s) = handles[h].as_mut() {
+                            s.send(Event::Message(data.clone()));
+                        }
+                        let still = handles[h].as_ref().map_or(false, EventSender::is_connected);
+                        if was && still {
+                            sent.push(data);
+                            next_id += 1;
+                        }
+                    }
+                }
                 "Clone" => {
                     let h = idx(step["h"].as_str().unwrap());
                     let g = idx(step["g"].as_str().unwrap());
